@@ -179,6 +179,30 @@ func c19DurRT(n int64) (string, string) {
 	return "", ""
 }
 
+// c19Zones: the round trip must not depend on the process's local time zone.
+func c19Zones(c *fw.Ctx) {
+	old := time.Local
+	defer func() { time.Local = old }()
+	for _, z := range []int{9 * 3600, -(5*3600 + 1800), 14 * 3600, -12 * 3600} {
+		time.Local = time.FixedZone("verif", z)
+		for _, n := range []int64{0, 1, 86399, 86400, 1592653883, 1700000000, 1<<31 - 1, 1 << 31, 1<<32 - 1} {
+			for d := int64(-2); d <= 2; d++ {
+				m := n + d
+				if m < 0 || m >= 1<<32 {
+					continue
+				}
+				c.Count("evaluations", 1)
+				if sig, desc := c19TsRT(m); sig != "" {
+					c.Violate(sig+"/non-utc-local-zone", fmt.Sprintf("with the local time zone at UTC%+ds: %s", z, desc), 10, c19Case{Kind: "ts-rt-zone", N: m, S: fmt.Sprint(z)}, "")
+				}
+				if want := FormatUTC(m); wt.Timestamp(m).String() != want {
+					c.Violate("C19/timestamp/not-printed-in-utc", fmt.Sprintf("with the local time zone at UTC%+ds Timestamp(%d) prints %q, UTC is %q", z, m, wt.Timestamp(m).String(), want), 10, c19Case{Kind: "ts-rt-zone", N: m, S: fmt.Sprint(z)}, "")
+				}
+			}
+		}
+	}
+}
+
 func c19TsRT(n int64) (string, string) {
 	t := wt.Timestamp(n)
 	s := t.String()
@@ -386,6 +410,7 @@ func runC19(c *fw.Ctx) {
 			}
 		}
 		c19Methods(c)
+		c19Zones(c)
 		// timestamp flag pair through a real command
 		for _, n := range []int64{0, 1, 1700000000, 1<<31 - 1, 1 << 31, 1<<32 - 1} {
 			fs := flag.NewFlagSet("x", flag.ContinueOnError)
@@ -415,6 +440,16 @@ func replayC19(c *fw.Ctx, raw json.RawMessage) (bool, string) {
 		sig, desc = c19DurStr(k.S)
 	case "list-str":
 		sig, desc = c19ListStr(k.S)
+	case "ts-rt-zone":
+		var z int
+		fmt.Sscan(k.S, &z)
+		old := time.Local
+		time.Local = time.FixedZone("verif", z)
+		sig, desc = c19TsRT(k.N)
+		if sig == "" && wt.Timestamp(k.N).String() != FormatUTC(k.N) {
+			sig, desc = "C19/timestamp/not-printed-in-utc", wt.Timestamp(k.N).String()
+		}
+		time.Local = old
 	case "list-rt":
 		sig, desc = c19ListRT(wsp.ParseLayout(k.S))
 	default:
